@@ -89,6 +89,42 @@ def who(body, op, depth=0):
     return r, tuple(f)
 
 
+def vexpr(body, op, depth=0):
+    """Structural expression of an operand: nested (callee, args...) through unique definitions; clone-like calls,
+    copies, references and derefs are transparent.  Two operands with the same vexpr denote the same value."""
+    c = cfg.op_const(op) if isinstance(op, dict) else None
+    if c is not None:
+        return ("const", str(c.get("c", c.get("v"))))
+    place = op if isinstance(op, list) else cfg.op_place(op)
+    if place is None:
+        return ("?",)
+    r, f = cfg.origin(body, place)
+    f = tuple(x for x in f if x != "*")
+    if depth < 6 and not (0 < r <= body.d["argc"]):     # depth counts calls only, so equal values expand equally
+        ds = [d for d in cfg.defs(body).get(r, []) if d[0] != "partial"]
+        if len(ds) == 1:
+            d = ds[0]
+            if d[0] == "call":
+                n = cfg.callee(d[2]) or "?"
+                if n.endswith(CLONEY) and d[2]["a"]:
+                    return vexpr(body, d[2]["a"][0], depth) + (f if f else ())
+                return ("call", common.norm(n)) + tuple(vexpr(body, a, depth + 1) for a in d[2]["a"]) + f
+            if d[0] == "assign" and d[2]["k"] in ("use", "cast"):
+                return vexpr(body, d[2]["o"], depth) + f
+            if d[0] == "assign" and d[2]["k"] == "ref":
+                return vexpr(body, d[2]["p"], depth) + f
+    return ("local", r) + f
+
+
+def vshow(e, n=3):
+    if not isinstance(e, tuple) or n == 0:
+        return "…" if isinstance(e, tuple) else str(e)
+    if e[0] == "call":
+        return "%s(%s)%s" % (last(e[1]), ", ".join(vshow(a, n - 1) for a in e[2:] if isinstance(a, tuple)),
+                             "".join(a for a in e[2:] if isinstance(a, str)))
+    return "%s:%s" % (e[0], "".join(str(x) for x in e[1:]))
+
+
 def _is_branch(n):
     return bool(n) and n.endswith(("Try>::branch", "Try::branch"))
 
@@ -289,6 +325,17 @@ def r24b(ctx):
         ctx.ob("R24b", "%s:token-from-request" % ex, ok,
                "the validated token is the request's `Authorization: Bearer` value" if ok else
                "the token passed to user_id_from_token does not derive from the request's bearer header", b.where)
+        if ex == "UserToken":
+            # the token handed to the logout handlers is the very value that was validated (otherwise a spelling the
+            # look-up accepts - the token in JSON quotes - is "removed" without removing the stored token)
+            aggs = [s_ for bi, s_ in cfg.assigns(b) if s_["r"]["k"] == "agg" and s_["r"].get("adt") == UID + "UserToken"]
+            want = {vexpr(b, t["a"][1]) for i, t in cs}
+            got = {vexpr(b, s_["r"]["ops"][0]) for s_ in aggs}
+            ok = bool(aggs) and len(want) == 1 and got == want and ("?",) not in want
+            ctx.ob("R24b", "UserToken:carries-validated-token", ok,
+                   "UserToken wraps the same expression that user_id_from_token validated" if ok else
+                   "UserToken wraps %s but user_id_from_token validated %s: logout would look for a different string "
+                   "than the one that authenticated" % (sorted(map(vshow, got)), sorted(map(vshow, want))), b.where)
         if ex == "UserId":
             ids = set()
             for i, t in cs:
@@ -735,6 +782,102 @@ READING = {"Search", "SelectAliases", "SelectAllAliases", "SelectEdgeCount", "Se
            "SelectKeyCount", "SelectNodeCount", "SelectValues"}
 
 
+
+# ---------------------------------------------------------------- R24g subject binding of the role / db look-ups
+
+LOOKUPS = {  # ServerDb fn -> callee that must feed the success value, called with (user, owner, db) of the fn itself
+    "find_user_db_id": "find_user_db_query", "user_db": "find_user_db_query", "user_db_role": "find_user_db_query",
+    "remove_db": "find_user_db_query", "user_db_id": SDB + "find_user_db_id",
+}
+
+
+def _not_residual(n):
+    return n.endswith(("FromResidual>::from_residual", "FromResidual::from_residual"))
+
+
+def _upvar_to_outer(fa, outer, inner, w):
+    """map `(1, ('.k', ..))` of closure body `inner` to the source of the k-th captured operand in `outer`"""
+    if not w or w[0] != 1 or not w[1] or not w[1][0][1:].isdigit():
+        return None
+    k = int(w[1][0][1:])
+    for bi, s_ in cfg.assigns(outer):
+        r = s_["r"]
+        if r["k"] == "agg" and r.get("def") == inner.path and k < len(r["ops"]):
+            return who(outer, r["ops"][k])
+    return None
+
+
+def r24g(ctx):
+    """The success value of each (user, owner, db) look-up is *computed from* the one query that identifies the
+    database by all three of the function's own parameters: a role / id / record taken from anything else (the db name
+    alone, the first db of the user, ...) answers for the wrong subject when names collide."""
+    fa = ctx.facts
+    n = 0
+    for fn, need in LOOKUPS.items():
+        b = ctx.anchor("R24g", SDB + fn + "::{closure#0}")
+        if not b:
+            continue
+        n += 1
+        found = []
+
+        def scan(body, outer_chain):
+            sl, calls, reads = cfg.backward_slice(body, [0], skip_call=_not_residual)
+            for i, t in calls:
+                c = cfg.callee(t) or ""
+                if c == need or c.endswith("::" + need):
+                    args = t["a"][-3:]
+                    ws = []
+                    for a in args:
+                        w = who(body, a)
+                        cur = body
+                        for ob in outer_chain:
+                            w = _upvar_to_outer(fa, ob, cur, w)
+                            cur = ob
+                        ws.append(w)
+                    found.append((body.loc(i), ws))
+                for cb in common.closure_bodies_passed(fa, body, t):
+                    if len(outer_chain) < 2:
+                        scan(cb, [body] + outer_chain)
+        scan(b, [])
+        want = [(1, (".1",)), (1, (".2",)), (1, (".3",))]
+        ok = any([(w[0], tuple(w[1][:1])) if w else None for w in ws] == want for loc, ws in found)
+        ctx.ob("R24g", "ServerDb::%s:subject" % fn, ok,
+               "the success value is computed from %s(user, owner, db) of the function's own parameters" % last(need) if ok else
+               "the value ServerDb::%s returns on success is not computed from %s(user, owner, db) (calls in the data "
+               "slice of the result: %s): the answer can belong to another database of the same name" % (
+                   fn, last(need), found or "none"), b.where)
+    ctx.floor("R24g", "(user, owner, db) look-ups of ServerDb", n, 5)
+    # the identifying query binds each key to its parameter
+    q = ctx.anchor("R24g", "agdb_server::server_db::find_user_db_query")
+    if q:
+        chain = []
+        cur = 0
+        for _ in range(40):
+            dc = cfg.def_call(q, cur)
+            if not dc:
+                break
+            chain.append((last(cfg.callee(dc[1]) or "?"), [vexpr(q, a) for a in dc[1]["a"][1:]]))
+            pl = cfg.op_place(dc[1]["a"][0]) if dc[1]["a"] else None
+            if not pl:
+                break
+            cur = pl[0]
+        chain.reverse()
+        pairs = {}
+        frm = None
+        for k, (m, args) in enumerate(chain):
+            if m == "from" and args:
+                frm = args[0]
+            if m == "key" and args and k + 1 < len(chain) and chain[k + 1][0] == "value" and chain[k + 1][1]:
+                pairs[vshow(args[0])] = chain[k + 1][1][0]
+        names = [m for m, a in chain]
+        okq = (frm == ("local", 1) and len(pairs) == 2 and sorted(pairs.values()) == [("local", 2), ("local", 3)]
+               and "neighbor" in names and not any(x in names for x in ("or", "not", "not_beyond")))
+        ctx.ob("R24g", "find_user_db_query:binds-all", okq,
+               "from(user), neighbor, key(..).value(owner) and key(..).value(db), conjunctive" if okq else
+               "find_user_db_query no longer restricts the search to the user's neighbours with both the owner and the db "
+               "key bound to its parameters (chain %s, pairs %s)" % (names, {k: vshow(v) for k, v in pairs.items()}), q.where)
+
+
 def flatten_or(p):
     if p["k"] == "or":
         return [x for s in p["sub"] for x in flatten_or(s)]
@@ -1016,6 +1159,7 @@ def run(ctx):
     r24d(ctx)
     r24e(ctx)
     r24f(ctx)
+    r24g(ctx)
     # R24e (type-level half): exec / Transaction::exec reject a mutating query at compile time (E3 witnesses)
     from rules.C23 import witness
     witness(ctx, "C24")
